@@ -19,8 +19,8 @@ def idemFrag : FieldDecl → Bool
   | .struct c _ _ => !c.inline
   | .setAny _ _ => true
   | .setOf _ f _ => idemFrag f
-  | .mapAny _ => false
-  | .mapOf _ _ _ => false
+  | .mapAny _ => true
+  | .mapOf kf vf _ => idemFrag kf && idemFrag vf
   | .anyOf _ => false
   | .number _ => true
   | .integer _ => true
@@ -123,6 +123,151 @@ theorem c01_aSet_stable (imm : Bool) (sz : SizeOpts) (ad : PyVal → Bool) (nm :
   simp only [nSet, aSet, hmap, c01_dedup_dedup, and_true_iff, Bool.or_assoc, Bool.or_self]
   exact ⟨⟨⟨h3, dedup_all ad _ hall.1⟩, h3⟩, trivial⟩
 
+/-- a later key is never `==` to an earlier one (what building a dict establishes) -/
+def KeysDistinct : List (PyVal × PyVal) → Prop
+  | [] => True
+  | e :: rest => (∀ e' ∈ rest, pyEq e'.1 e.1 = false) ∧ KeysDistinct rest
+
+theorem c01_dictSet_keys (k v : PyVal) : ∀ (acc : List (PyVal × PyVal)) (e' : PyVal × PyVal),
+    e' ∈ dictSet k v acc → e'.1 = k ∨ ∃ e'' ∈ acc, e'.1 = e''.1
+  | [], e', h => by simp [dictSet] at h; exact Or.inl (by rw [h])
+  | (k0, v0) :: rest, e', h => by
+    simp only [dictSet] at h
+    split at h
+    · simp only [List.mem_cons] at h
+      rcases h with h | h
+      · exact Or.inr ⟨(k0, v0), by simp, by rw [h]⟩
+      · exact Or.inr ⟨e', by simp [h], rfl⟩
+    · simp only [List.mem_cons] at h
+      rcases h with h | h
+      · exact Or.inr ⟨(k0, v0), by simp, by rw [h]⟩
+      · rcases c01_dictSet_keys k v rest e' h with h1 | ⟨e'', he, h2⟩
+        · exact Or.inl h1
+        · exact Or.inr ⟨e'', by simp [he], h2⟩
+
+theorem c01_dictSet_distinct (k v : PyVal) : ∀ (acc : List (PyVal × PyVal)),
+    KeysDistinct acc → KeysDistinct (dictSet k v acc)
+  | [], _ => by simp [dictSet, KeysDistinct]
+  | (k0, v0) :: rest, h => by
+    simp only [dictSet]
+    split
+    · exact ⟨h.1, h.2⟩
+    · rename_i hne
+      refine ⟨fun e' he' => ?_, c01_dictSet_distinct k v rest h.2⟩
+      rcases c01_dictSet_keys k v rest e' he' with h1 | ⟨e'', he, h2⟩
+      · rw [h1]; simpa using hne
+      · rw [h2]; exact h.1 e'' he
+
+theorem c01_foldl_distinct : ∀ (l acc : List (PyVal × PyVal)), KeysDistinct acc →
+    KeysDistinct (l.foldl (fun acc kv => dictSet kv.1 kv.2 acc) acc)
+  | [], _, h => h
+  | kv :: l, acc, h => c01_foldl_distinct l _ (c01_dictSet_distinct kv.1 kv.2 acc h)
+
+theorem c01_dictOfPairs_distinct (l : List (PyVal × PyVal)) : KeysDistinct (dictOfPairs l) :=
+  c01_foldl_distinct l [] trivial
+
+theorem c01_dictSet_append (k v : PyVal) : ∀ (acc : List (PyVal × PyVal)),
+    (∀ e ∈ acc, pyEq k e.1 = false) → dictSet k v acc = acc ++ [(k, v)]
+  | [], _ => rfl
+  | (k0, v0) :: rest, h => by
+    have h0 : pyEq k k0 = false := h (k0, v0) (by simp)
+    simp only [dictSet, h0, Bool.false_eq_true, if_false, List.cons_append]
+    rw [c01_dictSet_append k v rest (fun e he => h e (by simp [he]))]
+
+theorem c01_distinct_append_cons : ∀ (acc : List (PyVal × PyVal)) (e : PyVal × PyVal) (rest : List (PyVal × PyVal)),
+    KeysDistinct (acc ++ e :: rest) → ∀ a ∈ acc, pyEq e.1 a.1 = false
+  | [], _, _, _, a, ha => by simp at ha
+  | a0 :: acc, e, rest, h, a, ha => by
+    simp only [List.cons_append] at h
+    simp only [List.mem_cons] at ha
+    rcases ha with rfl | ha
+    · exact h.1 e (by simp)
+    · exact c01_distinct_append_cons acc e rest h.2 a ha
+
+theorem c01_foldl_of_distinct : ∀ (l acc : List (PyVal × PyVal)), KeysDistinct (acc ++ l) →
+    l.foldl (fun acc kv => dictSet kv.1 kv.2 acc) acc = acc ++ l
+  | [], acc, _ => by simp
+  | kv :: l, acc, h => by
+    simp only [List.foldl_cons]
+    rw [c01_dictSet_append kv.1 kv.2 acc (c01_distinct_append_cons acc kv l h)]
+    have : acc ++ [(kv.1, kv.2)] ++ l = acc ++ kv :: l := by simp
+    rw [c01_foldl_of_distinct l (acc ++ [(kv.1, kv.2)]) (by rw [this]; exact h), this]
+
+theorem c01_dictOfPairs_of_distinct (d : List (PyVal × PyVal)) (h : KeysDistinct d) : dictOfPairs d = d := by
+  unfold dictOfPairs
+  simpa using c01_foldl_of_distinct d [] (by simpa using h)
+
+theorem c01_dictOfPairs_idem (l : List (PyVal × PyVal)) : dictOfPairs (dictOfPairs l) = dictOfPairs l :=
+  c01_dictOfPairs_of_distinct _ (c01_dictOfPairs_distinct l)
+
+/-- entries of the built dict satisfy what all keys and all values of the pairs satisfy -/
+theorem c01_dictSet_forall (QK QV : PyVal → Prop) (k v : PyVal) (hk : QK k) (hv : QV v) :
+    ∀ acc : List (PyVal × PyVal), (∀ e ∈ acc, QK e.1 ∧ QV e.2) → ∀ e ∈ dictSet k v acc, QK e.1 ∧ QV e.2
+  | [], _, e, he => by simp [dictSet] at he; rw [he]; exact ⟨hk, hv⟩
+  | (k0, v0) :: rest, h, e, he => by
+    simp only [dictSet] at he
+    split at he
+    · simp only [List.mem_cons] at he
+      rcases he with rfl | he
+      · exact ⟨(h (k0, v0) (by simp)).1, hv⟩
+      · exact h e (by simp [he])
+    · simp only [List.mem_cons] at he
+      rcases he with rfl | he
+      · exact h (k0, v0) (by simp)
+      · exact c01_dictSet_forall QK QV k v hk hv rest (fun e' he' => h e' (by simp [he'])) e he
+
+theorem c01_dictOfPairs_forall (QK QV : PyVal → Prop) (l : List (PyVal × PyVal))
+    (h : ∀ e ∈ l, QK e.1 ∧ QV e.2) : ∀ e ∈ dictOfPairs l, QK e.1 ∧ QV e.2 := by
+  unfold dictOfPairs
+  suffices ∀ (l acc : List (PyVal × PyVal)), (∀ e ∈ l, QK e.1 ∧ QV e.2) → (∀ e ∈ acc, QK e.1 ∧ QV e.2) →
+      ∀ e ∈ l.foldl (fun acc kv => dictSet kv.1 kv.2 acc) acc, QK e.1 ∧ QV e.2 from
+    this l [] h (fun e he => by simp at he)
+  intro l
+  induction l with
+  | nil => intro acc _ ha; exact ha
+  | cons kv rest ih =>
+    intro acc hl ha
+    simp only [List.foldl_cons]
+    exact ih _ (fun e he => hl e (by simp [he]))
+      (c01_dictSet_forall QK QV kv.1 kv.2 (hl kv (by simp)).1 (hl kv (by simp)).2 acc ha)
+
+
+theorem c01_map_fix_pairs (g : PyVal × PyVal → PyVal × PyVal) : ∀ l : List (PyVal × PyVal), (∀ e ∈ l, g e = e) → l.map g = l
+  | [], _ => rfl
+  | e :: l, h => by
+    simp only [List.map_cons, h e (by simp), c01_map_fix_pairs g l (fun z hz => h z (by simp [hz]))]
+
+theorem c01_aMap_stable (sz : SizeOpts) (ak av : PyVal → Bool) (nk nv : PyVal → PyVal) (v : PyVal)
+    (hk : ∀ x, ak x = true → Stable ak nk x) (hv : ∀ x, av x = true → Stable av nv x)
+    (h : aMap sz (fun kvs => kvs.all (fun kv => ak kv.1 && av kv.2)) (List.map (fun kv => (nk kv.1, nv kv.2))) v = true) :
+    aMap sz (fun kvs => kvs.all (fun kv => ak kv.1 && av kv.2)) (List.map (fun kv => (nk kv.1, nv kv.2)))
+        (nMap (List.map (fun kv => (nk kv.1, nv kv.2))) v) = true
+      ∧ nMap (List.map (fun kv => (nk kv.1, nv kv.2))) (nMap (List.map (fun kv => (nk kv.1, nv kv.2))) v)
+          = nMap (List.map (fun kv => (nk kv.1, nv kv.2))) v := by
+  unfold aMap at h
+  cases v <;> simp at h
+  rename_i kvs
+  obtain ⟨⟨h1, h2⟩, h3⟩ := h
+  have hmem : ∀ e ∈ kvs.map (fun kv => (nk kv.1, nv kv.2)),
+      (ak e.1 = true ∧ nk e.1 = e.1) ∧ (av e.2 = true ∧ nv e.2 = e.2) := by
+    intro e he
+    rcases List.mem_map.1 he with ⟨kv, hkv, rfl⟩
+    have := h2 kv.1 kv.2 hkv
+    exact ⟨hk kv.1 this.1, hv kv.2 this.2⟩
+  have hd := c01_dictOfPairs_forall (fun k => ak k = true ∧ nk k = k) (fun x => av x = true ∧ nv x = x) _ hmem
+  have hfix : (dictOfPairs (kvs.map (fun kv => (nk kv.1, nv kv.2)))).map (fun kv => (nk kv.1, nv kv.2))
+      = dictOfPairs (kvs.map (fun kv => (nk kv.1, nv kv.2))) :=
+    c01_map_fix_pairs _ _ (fun e he => by
+      have := hd e he
+      show (nk e.1, nv e.2) = e
+      rw [this.1.2, this.2.2])
+  simp only [nMap, aMap, hfix, c01_dictOfPairs_idem, and_true_iff]
+  refine ⟨⟨⟨h3, ?_⟩, h3⟩, trivial⟩
+  rw [List.all_eq_true]
+  intro e he
+  have := hd e he
+  simp [this.1.1, this.2.1]
+
 theorem c01_aSeq_stable (k : SeqKind) (sz : SizeOpts) (pre a : List PyVal → Bool)
     (n : List PyVal → List PyVal) (v : PyVal)
     (hpre : ∀ xs ys : List PyVal, xs.length = ys.length → pre xs = pre ys)
@@ -215,8 +360,16 @@ theorem norm_stable (O : Oracles) : ∀ (f : FieldDecl) (v : PyVal), idemFrag f 
   | .setOf imm f sz, v, hf, h => by
     simp only [admits, norm, idemFrag] at *
     exact c01_aSet_stable imm sz _ _ v (fun x hx => norm_stable O f x hf hx) h
-  | .mapAny _, _, hf, _ => by simp [idemFrag] at hf
-  | .mapOf _ _ _, _, hf, _ => by simp [idemFrag] at hf
+  | .mapAny sz, v, _, h => by
+    simp only [admits, norm] at *
+    unfold aMap at h
+    cases v <;> simp at h
+    rename_i kvs
+    simp only [nMap, aMap, id, c01_dictOfPairs_idem, and_true_iff]
+    exact ⟨⟨⟨h.2, trivial⟩, h.2⟩, trivial⟩
+  | .mapOf kf vf sz, v, hf, h => by
+    simp only [admits, norm, idemFrag, and_true_iff] at *
+    exact c01_aMap_stable sz _ _ _ _ v (fun x hx => norm_stable O kf x hf.1 hx) (fun x hx => norm_stable O vf x hf.2 hx) h
   | .anyOf _, _, hf, _ => by simp [idemFrag] at hf
 
 theorem normZip_stable (O : Oracles) : ∀ (fs : List FieldDecl) (xs : List PyVal), idemFrags fs = true →
